@@ -10,6 +10,8 @@
 package main
 
 import (
+	"os"
+	"github.com/thushan/olla/internal/config"
 	"bytes"
 	"context"
 	"crypto/sha256"
@@ -236,6 +238,7 @@ type echo struct {
 }
 
 func stackBurst(c *vlib.Cases, r *vlib.Rng, engine string, n int, prefix, epType, base string, preserve bool) {
+	inspDir := ""
 	b := stack.NewBackend("A")
 	b.KeepBodies = false
 	defer b.Close()
@@ -261,7 +264,24 @@ func stackBurst(c *vlib.Cases, r *vlib.Rng, engine string, n int, prefix, epType
 		}
 		return 200, `{"object":"list","data":[` + strings.Join(ids, ",") + `]}`
 	}
-	s, err := stack.Start(stack.Opts{Engine: engine, Balancer: "priority", ModelDiscovery: true, EPs: []stack.EP{{Name: "A", Type: epType, Priority: 1, Backend: b, BasePath: base, Preserve: preserve}}})
+	// the Anthropic route with a backend that speaks the Messages API itself: passthrough, no translation
+	anthPT := prefix == "/olla/anthropic/"
+	s, err := stack.Start(stack.Opts{Vary: stack.VaryFor("c01.burst", engine, prefix, epType, base, preserve), Engine: engine, Balancer: "priority", ModelDiscovery: true, EPs: []stack.EP{{Name: "A", Type: epType, Priority: 1, Backend: b, BasePath: base, Preserve: preserve}},
+		Mutate: func(cfg *config.Config) {
+			if anthPT {
+				cfg.Translators.Anthropic.Enabled = true
+				cfg.Translators.Anthropic.PassthroughEnabled = true
+				if n%2 == 0 { // the debugging inspector logs requests; it must not touch them
+					if dir, err := os.MkdirTemp(vlib.OutDir(), "inspector"); err == nil {
+						inspDir = dir
+						cfg.Translators.Anthropic.Inspector = config.InspectorConfig{Enabled: true, OutputDir: dir, SessionHeader: "X-Session-ID"}
+					}
+				}
+			}
+		}})
+	if inspDir != "" {
+		defer os.RemoveAll(inspDir)
+	}
 	if err != nil {
 		c.Emit(map[string]any{"kind": "stack", "impl": map[string]any{"start_err": err.Error()}})
 		return
@@ -299,6 +319,13 @@ func stackBurst(c *vlib.Cases, r *vlib.Rng, engine string, n int, prefix, epType
 			}
 			js := !rr.Chance(1, 6)
 			model, body := mkBody(rr, i, size, js)
+			if anthPT {
+				if size > 1<<20 {
+					size = 300 + rr.Intn(200000)
+				}
+				js = true
+				model, body = mkAnthropicBody(rr, i, size)
+			}
 			if size > 1<<20 || len(body) > 1<<20 {
 				model = "" // beyond the inspector's peek window the model is not extracted
 			}
@@ -308,6 +335,10 @@ func stackBurst(c *vlib.Cases, r *vlib.Rng, engine string, n int, prefix, epType
 			}
 			rest := vlib.Pick(rr, []string{"/v1/chat/completions", "/v1/completions", "/api/generate", "/x/y%20z", "/v1/embeddings", "/olla/openai/v1/chat/completions", "/olla/proxy/v1/x"}) // the last two: the backend is itself an Olla
 			q := vlib.Pick(rr, []string{"", "a=1&b=%2F&c=x+y", "stream=true", "q=%7B%22k%22%3A1%7D&&z"})
+			if anthPT {
+				method, rest = "POST", "/v1/messages"
+				q = vlib.Pick(rr, []string{"", "beta=true", "a=1&b=%2F"})
+			}
 			target := prefix + strings.TrimPrefix(rest, "/")
 			if q != "" {
 				target += "?" + q
@@ -331,6 +362,29 @@ func stackBurst(c *vlib.Cases, r *vlib.Rng, engine string, n int, prefix, epType
 	c.Emit(map[string]any{"kind": "stack", "engine": engine, "clients": n, "prefix": prefix, "type": epType, "base": base, "preserve": preserve, "impl": map[string]any{"requests": res}})
 }
 
+// mkAnthropicBody: a Messages API request of about `size` bytes whose text is what people paste into a chat: prose,
+// shell commands, environment files with keys and tokens in them
+func mkAnthropicBody(r *vlib.Rng, i int, size int) (string, []byte) {
+	model := fmt.Sprintf("model-%d", r.Intn(8))
+	snippets := []string{"hello ", "export OPENAI_API_KEY=sk-proj-" + fmt.Sprintf("%032x", r.U64()) + "\n", "curl -H 'Authorization: Bearer " + fmt.Sprintf("%040x", r.U64()) + "' https://x\n",
+		"AKIA" + strings.ToUpper(fmt.Sprintf("%016x", r.U64())) + " ", "ghp_" + fmt.Sprintf("%036x", r.U64()) + " ", "password=hunter2 ", "sk-ant-api03-" + fmt.Sprintf("%048x", r.U64()) + " ",
+		"\u00e9\u4e16 ", "{\"nested\":[1,2]} ", fmt.Sprintf("nonce-%012x ", r.U64()&0xffffffffffff)}
+	var sb strings.Builder
+	for sb.Len() < size {
+		sb.WriteString(vlib.Pick(r, snippets))
+	}
+	msgs := []any{map[string]any{"role": "user", "content": sb.String()}}
+	if r.Bool() {
+		msgs = []any{map[string]any{"role": "user", "content": []any{map[string]any{"type": "text", "text": sb.String()}}}}
+	}
+	m := map[string]any{"model": model, "max_tokens": 64, "messages": msgs, "metadata": map[string]any{"user_id": fmt.Sprintf("client-%d", i)}}
+	if r.Bool() {
+		m["system"] = "be brief " + vlib.Pick(r, snippets)
+	}
+	body, _ := json.Marshal(m)
+	return model, body
+}
+
 var nonceRe = regexp.MustCompile(`nonce-[0-9a-f]+`)
 
 // stackBigFailover: a large upload with a declared length; the preferred endpoint consumes part of it and resets the
@@ -345,7 +399,7 @@ func stackBigFailover(c *vlib.Cases, r *vlib.Rng, engine string, size int, chunk
 		js, _ := json.Marshal(echo{Method: s.Method, Path: s.Path, Query: s.RawQuery, SHA: s.BodySHA, Len: s.BodyLen, Backend: "B"})
 		return stack.Behaviour{Kind: "ok", Status: 200, Headers: [][2]string{{"Content-Type", "application/json"}}, Body: js}
 	})
-	s, err := stack.Start(stack.Opts{Engine: engine, Balancer: "priority", EPs: []stack.EP{{Name: "A", Type: "openai", Priority: 300, Backend: a}, {Name: "B", Type: "openai", Priority: 100, Backend: b}}})
+	s, err := stack.Start(stack.Opts{Vary: stack.VaryFor("c01.big", engine, size, chunked), Engine: engine, Balancer: "priority", EPs: []stack.EP{{Name: "A", Type: "openai", Priority: 300, Backend: a}, {Name: "B", Type: "openai", Priority: 100, Backend: b}}})
 	if err != nil {
 		c.Emit(map[string]any{"kind": "stack", "impl": map[string]any{"start_err": err.Error()}})
 		return
@@ -406,7 +460,7 @@ func stackTranslated(c *vlib.Cases, r *vlib.Rng, engine string, n int) {
 		}
 		return 200, `{"object":"list","data":[` + strings.Join(ids, ",") + `]}`
 	}
-	s, err := stack.Start(stack.Opts{Engine: engine, Balancer: "priority", ModelDiscovery: true, EPs: []stack.EP{{Name: "A", Type: "openai", Priority: 1, Backend: b}}})
+	s, err := stack.Start(stack.Opts{Vary: stack.VaryFor("c01.translated", engine, n), Engine: engine, Balancer: "priority", ModelDiscovery: true, EPs: []stack.EP{{Name: "A", Type: "openai", Priority: 1, Backend: b}}})
 	if err != nil {
 		c.Emit(map[string]any{"kind": "xlate", "impl": map[string]any{"start_err": err.Error()}})
 		return
@@ -532,7 +586,8 @@ func main() {
 		preserve         bool
 	}
 	cfgs := []cfg{{"/olla/proxy/", "openai", "", false}, {"/olla/openai/", "openai", "", false}, {"/olla/ollama/", "ollama", "", false},
-		{"/olla/proxy/", "openai", "/base/v9", true}, {"/olla/vllm/", "vllm", "", false}, {"/olla/lm-studio/", "lm-studio", "", false}}
+		{"/olla/proxy/", "openai", "/base/v9", true}, {"/olla/vllm/", "vllm", "", false}, {"/olla/lm-studio/", "lm-studio", "", false},
+		{"/olla/anthropic/", "vllm", "", false}}
 	bursts := []int{2, 16, 64}
 	for _, engine := range []string{"sherpa", "olla"} {
 		for bi2, n := range bursts {
